@@ -19,7 +19,9 @@ there; split independence = the same line and the same consumption on every exte
 """
 from pyvc.api import *
 from pyvc import builtins_ as B
+from pyvc.engine import PyRaise
 from contracts.lib import *
+import ast
 import z3
 import os as _os
 
@@ -165,13 +167,13 @@ REG.assume_note("generators (step extraction): between two steps the environment
 _GHOST_ID = 1000000
 
 
-def _snap(name="raw", ghost="raw0", via=None):
+def _snap(name="raw", ghost="raw0", via=None, gid=None):
     """ghost snapshot of a buffer at the start of the step: a pre-state list object the code cannot reach (distinct
     from the buffer; fresh objects have negative ids), with the buffer's length and contents.  No heap write is
     needed, which keeps the terms small."""
     def setup(E):
         lv = via(E) if via else E.frame.env[name]
-        g = z3.IntVal(_GHOST_ID)            # a pre-state object of its own (no parameter is pinned to this id)
+        g = z3.IntVal(gid or _GHOST_ID)     # a pre-state object of its own (no parameter is pinned to this id)
         E.assume(g != lv.t)
         gl = ListV(g, lv.et)
         E.assume(E.llen(gl) == E.llen(lv))
@@ -254,34 +256,41 @@ LINE_RAISES = {"LineTooLong": ["seq_eq(raw, raw0)", "len(raw0) > MAX_LINE_SIZE",
                                "no_eol_in(raw0, 0, MAX_LINE_SIZE + 1, len(raw0), eols)"]}
 EOLS_POOL = [(b"\r\n", b"\n", b"\r")]
 
-contract(F, "parseLine", "C33,C29", tags=("step2", "emits", "logic=AUFLIA"), params=dict(raw=BA), setup=_snap(),
-         cases=[{}, {"eols": ("const", (b"\r\n", b"\n"))}, {"eols": ("const", (b"\r\n",))}],
-         modifies=["raw[*]"], ensures=LINE_ENSURES, raises=LINE_RAISES, returns=Opt(BA),
-         replay=dict(make=_mk_line(EOLS_POOL), call=_call_line, view=_view, count=400),
-         note="one step of parseLine for the mark sets (CRLF, LF, CR) [events], (CRLF, LF) [leader], (CRLF,) [chunk "
-              "size line]; the step always emits (tag emits), so next(lineParser) is one application of this contract")
+def _line_setup(E):
+    _seq(_pin(raw=1000001), _snap(), _bytearray_kind("raw"))(E)
 
-# split independence (prefix stability): n0 = number of bytes that had arrived at an earlier step.  If raw0[:n0]
-# already contained a mark, the step on the whole buffer yields the line and consumes the bytes that the statement
-# prescribes for raw0[:n0] alone - whatever follows.
+
 STABLE = "has_eol(raw0, n0, eols)"
-contract(F, "parseLine", "C33,C29", tags=("step2", "logic=AUFLIA"), params=dict(raw=BA, n0=INT), setup=_snap(),
-         cases=[{}, {"eols": ("const", (b"\r\n", b"\n"))}, {"eols": ("const", (b"\r\n",))}],
-         requires=["0 <= n0 and n0 <= len(raw)"], modifies=["raw[*]"],
-         ensures=[
-             "implies(%s, result is not None)" % STABLE,
-             "implies(%s and result is not None, len(result) < n0 and eol_at(raw0, len(result), n0, eols) and "
-             "no_eol_in(raw0, 0, len(result), n0, eols))" % STABLE,
-             "implies(%s and result is not None, "
-             "len(raw0) - len(raw) == len(result) + eol_len_at(raw0, len(result), n0, eols))" % STABLE,
-         ],
-         raises={"LineTooLong": ["implies(%s, no_eol_in(raw0, 0, MAX_LINE_SIZE + 1, n0, eols))" % STABLE]},
-         findings={"cr-lf-split": "1 <= n0 and n0 < len(raw) and raw[n0 - 1] == 13 and raw[n0] == 10 and CR in eols "
-                                  "and no_eol_in(raw, 0, n0 - 1, n0, eols)"},
-         returns=Opt(BA),
-         replay=dict(make=_mk_line(EOLS_POOL, with_n0=True, big=False), call=_call_line, view=_view, count=600),
-         note="prefix-stability lemma as a contract on the code; region cr-lf-split = the buffer ended with a CR "
-              "that was its earliest mark and the next receive starts with LF")
+STABLE_ENSURES = [
+    "implies(%s, result is not None)" % STABLE,
+    "implies(%s and result is not None, len(result) < n0 and eol_at(raw0, len(result), n0, eols) and "
+    "no_eol_in(raw0, 0, len(result), n0, eols))" % STABLE,
+    "implies(%s and result is not None, "
+    "len(raw0) - len(raw) == len(result) + eol_len_at(raw0, len(result), n0, eols))" % STABLE,
+]
+STABLE_RAISES = {"LineTooLong": ["implies(%s, no_eol_in(raw0, 0, MAX_LINE_SIZE + 1, n0, eols))" % STABLE]}
+CR_LF_SPLIT = ("1 <= n0 and n0 < len(raw) and raw[n0 - 1] == 13 and raw[n0] == 10 and CR in eols and "
+               "no_eol_in(raw, 0, n0 - 1, n0, eols)")
+
+for _prop, _cases, _pool, _what in (
+        ("C33", None, [(b"\r\n", b"\n", b"\r")], "the event-stream marks (CRLF, LF, CR) [the default]"),
+        ("C29", [{"eols": ("const", (b"\r\n", b"\n"))}, {"eols": ("const", (b"\r\n",))}], [(b"\r\n", b"\n")],
+         "the marks (CRLF, LF) [leader, trailer] and (CRLF,) [chunk size line]")):
+    # FIRST variant registered = the contract used modularly by next(lineParser) in parseEvents (marks = default)
+    contract(F, "parseLine", _prop, tags=("step2", "emits", "logic=AUFLIA", "fresh-result"), params=dict(raw=BA),
+             setup=_line_setup, cases=_cases, modifies=["raw[*]"], ensures=LINE_ENSURES, raises=LINE_RAISES,
+             returns=Opt(BA), replay=dict(make=_mk_line(_pool), call=_call_line, view=_view, count=400),
+             note="one step of parseLine for %s; the step always emits (tag emits), so next(lineParser) is one "
+                  "application of this contract" % _what)
+    # split independence (prefix stability): n0 = number of bytes that had arrived at an earlier step.  If raw0[:n0]
+    # already contained a mark, the step on the whole buffer yields the line and consumes the bytes that the
+    # statement prescribes for raw0[:n0] alone - whatever follows.
+    contract(F, "parseLine", _prop, tags=("step2", "logic=AUFLIA"), params=dict(raw=BA, n0=INT), setup=_line_setup,
+             cases=_cases, requires=["0 <= n0 and n0 <= len(raw)"], modifies=["raw[*]"],
+             ensures=STABLE_ENSURES, raises=STABLE_RAISES, findings={"cr-lf-split": CR_LF_SPLIT}, returns=Opt(BA),
+             replay=dict(make=_mk_line(_pool, with_n0=True, big=False), call=_call_line, view=_view, count=600),
+             note="prefix-stability lemma as a contract on the code, for %s; region cr-lf-split = the buffer ended "
+                  "with a CR that was its earliest mark and the next receive starts with LF" % _what)
 
 
 # ========================================================================================== ghost positions
@@ -510,13 +519,13 @@ def hdr_last_is(E, h, buf, k0, k1, v0, v1):
     lk, lvv = E.rd_field(h, "log_k"), E.rd_field(h, "log_v")
     m = E.llen(lk)
     key = E.lget(lk, m - 1)
-    val = E.lget(lvv, m - 1)
+    val = E.lget(lvv, E.llen(lvv) - 1)
     k0, k1, v0, v1 = zint(k0), zint(k1), zint(v0), zint(v1)
     a = E.larrs(buf)[0]
     ka, va = E.larrs(key)[0], E.larrs(val)[0]
     j = z3.Int("j!hl%d" % next(E.counter))
     nk, nv = E.llen(key), E.llen(val)
-    return Sym(z3.And(m >= 1, E.llen(lvv) == m, nk == k1 - k0,
+    return Sym(z3.And(m >= 1, E.llen(lvv) >= 1, nk == k1 - k0,
                       z3.ForAll([j], z3.Implies(z3.And(j >= 0, j < nk), z3.Select(ka, j) == z3.Select(a, k0 + j))),
                       nv >= 0, v0 + nv <= v1,
                       z3.ForAll([j], z3.Implies(z3.And(j >= 0, j < nv), z3.Select(va, j) == z3.Select(a, v0 + j))),
@@ -722,7 +731,7 @@ def _call_bom(env, nr):
 
 
 contract(F, "parseBom", "C33", tags=("step2", "logic=AUFLIA"), params=dict(raw=BA, size=INT),
-         setup=_seq(_snap(), _bytearray_kind("raw")), requires=["size == len(bom)"], modifies=["raw[*]"],
+         setup=_seq(_pin(raw=1000001), _snap(), _bytearray_kind("raw")), requires=["size == len(bom)"], modifies=["raw[*]"],
          ensures=[
              "implies(len(raw0) < len(bom), result is None and seq_eq(raw, raw0))",
              "implies(len(raw0) < len(bom), step_emit and not step_exit)",
@@ -738,3 +747,478 @@ contract(F, "parseBom", "C33", tags=("step2", "logic=AUFLIA"), params=dict(raw=B
               "are there (hence the same for every split)")
 contract(F, "parseBom", "C33", tags=("step2-init",), params=dict(raw=BA), modifies=[],
          ensures=["L_size == len(bom)"], note="prologue of parseBom")
+
+
+# ========================================================================================== parseEvents (C33 field rules)
+classdecl("EventSource", file=F, fields=dict(raw=BA, events=List(Ref("SseEvent")), dictable=BOOL, leid=Opt(STR),
+                                             retry=Opt(INT), closed=Opt(BOOL)))
+classdecl("SseEvent", file=None, fields=dict(eid=Opt(STR), name=STR, data=STR))
+if "odict" not in REG.classes:
+    classdecl("odict", file=None, fields={})
+
+
+@hook("odict", "ctor")
+def _event_ctor(E, cv, args, kwargs):
+    """odict([('id', eid), ('name', ename), ('data', edata)]) : the event record appended to .events"""
+    items = B.iter_values(E, args[0]) if len(args) == 1 and not kwargs else None
+    def key(k):
+        if isinstance(k, Sym) and z3.is_string_value(z3.simplify(k.t)):
+            return z3.simplify(k.t).as_string()
+        return k
+    if not items or [key(it[0]) for it in items] != ["id", "name", "data"]:
+        raise Unsupported("odict(...) other than the event record of parseEvents")
+    o = RefV(E.new_ref(), "SseEvent", nn=True)
+    E.wr_field(o, "eid", items[0][1])
+    E.wr_field(o, "name", items[1][1])
+    E.wr_field(o, "data", items[2][1])
+    return o
+
+
+_JOIN = z3.Function("join_nl", z3.IntSort(), z3.ArraySort(z3.IntSort(), z3.StringSort()), z3.StringSort())
+_PYINT_OK = z3.Function("pyint_ok", z3.StringSort(), z3.BoolSort())
+_PYINT = z3.Function("pyint", z3.StringSort(), z3.IntSort())
+FIELD_NAMES = (b"event", b"data", b"id", b"retry")
+
+
+def _join_term(E, lst):
+    if lst.et is None:
+        return z3.StringVal("")
+    return _JOIN(E.llen(lst), E.larrs(lst)[0])
+
+
+@external("str.join")
+def _str_join(E, args, kw):
+    sep, lst = args[0], args[1]
+    if isinstance(sep, bytes) and sep == b"" and isinstance(lst, ListV):
+        items = B.iter_values(E, lst)              # b''.join([...]) of a concrete number of byte strings
+        if items is None:
+            raise Unsupported("b''.join of a list of symbolic length")
+        out = b""
+        for it in items:
+            out = E.arith(ast.Add(), out, it)
+        return out
+    if sep != u"\n" or not isinstance(lst, ListV):
+        raise Unsupported("join other than '\\n'.join(list)")
+    t = _join_term(E, lst)
+    if lst.et is None:
+        return ""
+    E.assume(z3.Implies(E.llen(lst) == 0, t == z3.StringVal("")))
+    return Sym(t, "str")
+
+
+@specfunc
+def join_nl(E, lst):
+    return Sym(_join_term(E, lst), "str")
+
+
+join_nl.native = lambda lst: u"\n".join(lst)
+
+
+def _bytes_eq(E, arr, n, lit):
+    return z3.And(n == len(lit), *[z3.Select(arr, j) == lit[j] for j in range(len(lit))])
+
+
+def _utf8_decode(E, lv):
+    """x.decode('UTF-8'): raises UnicodeDecodeError (malformed input) or returns a text that the path records as
+    "the UTF-8 decoding of these bytes" (ghost table `dec`); the only facts: decoding is injective and maps ASCII
+    bytes to the same characters, instantiated for the four SSE field names"""
+    if E.choose(2) == 1:
+        raise PyRaise(ExcV(UnicodeDecodeError, ("utf-8", b"", 0, 1, "invalid")))
+    s = E.fresh("utf8", z3.StringSort())
+    n, arr = E.llen(lv), E.larrs(lv)[0]
+    E.ghost.setdefault("dec", [])
+    E.ghost["dec"] = E.ghost["dec"] + [(arr, n, s)]
+    for lit in FIELD_NAMES:
+        E.assume((s == z3.StringVal(lit.decode())) == _bytes_eq(E, arr, n, lit))
+    E.assume((z3.Length(s) == 0) == (n == 0))
+    return Sym(s, "str")
+
+
+@external("int(str)")
+def _py_int(E, args, kw):
+    """int(text): succeeds exactly on the texts Python accepts as an integer literal (uninterpreted predicate
+    pyint_ok); a non-empty text of ASCII digits only is accepted"""
+    v = args[0]
+    if len(args) != 1 or not (isinstance(v, Sym) and v.k == "str"):
+        raise Unsupported("int(%r)" % (args,))
+    for (arr, n, s) in E.ghost.get("dec", []):
+        if s.eq(v.t):
+            k = E.fresh("kd", z3.IntSort())
+            digits = z3.And(n > 0, z3.ForAll([k], z3.Implies(z3.And(k >= 0, k < n),
+                                                             z3.And(z3.Select(arr, k) >= 48, z3.Select(arr, k) <= 57))))
+            E.assume(z3.Implies(digits, _PYINT_OK(v.t)))
+    if not E.branch(_PYINT_OK(v.t)):
+        raise PyRaise(ExcV(ValueError, ("invalid literal for int()",)))
+    return Sym(_PYINT(v.t), "int")
+
+
+REG.assume_note("bytes.decode('UTF-8') raises UnicodeDecodeError or returns a text; the only facts used: it is "
+                "injective, maps the ASCII bytes of b'event' / b'data' / b'id' / b'retry' to those names and the empty "
+                "byte string to the empty text.  int(text) raises ValueError or returns an int (uninterpreted "
+                "pyint_ok / pyint); it accepts every non-empty text of ASCII digits.  '\\n'.join(list) is an "
+                "uninterpreted function of the list's contents (empty list -> empty text)")
+
+
+def _dec_match(E, s, buf, lo, hi):
+    """z3: text s was produced on this path by decoding bytes pointwise equal to buf[lo:hi]"""
+    lo, hi = zint(lo), zint(hi)
+    a = E.larrs(buf)[0]
+    out = []
+    for (arr, n, t) in E.ghost.get("dec", []):
+        k = z3.Int("k!du%d" % next(E.counter))
+        out.append(z3.And(zstr(s) == t, n == hi - lo,
+                          z3.ForAll([k], z3.Implies(z3.And(k >= 0, k < n), z3.Select(arr, k) == z3.Select(a, lo + k)))))
+    return out
+
+
+@specfunc
+def is_utf8(E, s, buf, lo, hi):
+    """s is the UTF-8 decoding of buf[lo:hi]"""
+    if isinstance(s, OptV):
+        return Sym(z3.And(z3.Not(s.isnone), z3.Or(*(_dec_match(E, s.val, buf, lo, hi) or [z3.BoolVal(False)]))), "bool")
+    if s is None:
+        return False
+    return Sym(z3.Or(*(_dec_match(E, s, buf, lo, hi) or [z3.BoolVal(False)])), "bool")
+
+
+@specfunc
+def all_digits(E, buf, lo, hi):
+    lo, hi = zint(lo), zint(hi)
+    a = E.larrs(buf)[0]
+    k = z3.Int("k!ad%d" % next(E.counter))
+    return Sym(z3.And(hi > lo, z3.ForAll([k], z3.Implies(z3.And(k >= lo, k < hi),
+                                                         z3.And(z3.Select(a, k) >= 48, z3.Select(a, k) <= 57)))), "bool")
+
+
+@specfunc
+def retry_is(E, new, buf, lo, hi):
+    """new is the int Python reads from the UTF-8 text of buf[lo:hi]"""
+    if new is None:
+        return False
+    outs = []
+    lo_, hi_ = zint(lo), zint(hi)
+    a = E.larrs(buf)[0]
+    for (arr, n, t) in E.ghost.get("dec", []):
+        k = z3.Int("k!ri%d" % next(E.counter))
+        same = z3.And(n == hi_ - lo_, z3.ForAll([k], z3.Implies(z3.And(k >= 0, k < n),
+                                                               z3.Select(arr, k) == z3.Select(a, lo_ + k))))
+        val = E.equal(new, Sym(_PYINT(t), "int"))
+        outs.append(z3.And(same, E.tobool(val)))
+    return Sym(z3.Or(*(outs or [z3.BoolVal(False)])), "bool")
+
+
+@specfunc
+def field_is(E, buf, lo, hi, name):
+    """buf[lo:hi] == name (concrete bytes)"""
+    name = bytes(name)
+    lo, hi = zint(lo), zint(hi)
+    a = E.larrs(buf)[0]
+    return Sym(z3.And(hi - lo == len(name), *[z3.Select(a, lo + j) == name[j] for j in range(len(name))]), "bool")
+
+
+def _n_utf8(s, buf, lo, hi):
+    try:
+        return s == bytes(buf[lo:hi]).decode("utf-8")
+    except UnicodeDecodeError:
+        return False
+
+
+def _n_retry_is(new, buf, lo, hi):
+    try:
+        return new == int(bytes(buf[lo:hi]).decode("utf-8"))
+    except ValueError:
+        return False
+
+
+is_utf8.native = _n_utf8
+all_digits.native = lambda buf, lo, hi: hi > lo and all(48 <= b <= 57 for b in bytes(buf[lo:hi]))
+retry_is.native = _n_retry_is
+field_is.native = lambda buf, lo, hi, name: bytes(buf[lo:hi]) == bytes(name)
+
+
+EV_IDS = dict(self=1000010, raw=1000001, events=1000005, parts=1000006)
+
+
+def _ev_setup(E):
+    """pin the objects (distinct Python types: EventSource, bytearray, deque, list), snapshot the buffer, the data
+    lines and the event queue, introduce the ghost positions of the first line"""
+    env = E.frame.env
+    me = env["self"]
+    E.assume(me.t == EV_IDS["self"])
+    me = RefV(z3.IntVal(EV_IDS["self"]), "EventSource", nn=True)
+    env["self"] = me
+    for attr in ("raw", "events"):
+        lv = E.rd_field(me, attr)
+        E.assume(lv.t == EV_IDS[attr])
+        E.wr_field(me, attr, ListV(z3.IntVal(EV_IDS[attr]), lv.et, kind="bytearray" if attr == "raw" else "list"))
+    if isinstance(env.get("parts"), ListV):
+        _pin(parts=EV_IDS["parts"])(E)
+        _snap(name="parts", ghost="parts0", gid=1000007)(E)
+    _snap(ghost="events0", via=lambda E2: E2.rd_field(me, "events"), gid=1000008)(E)
+    env["eols"] = (b"\r\n", b"\n", b"\r")
+    _line_ghosts(colon=True, buf=lambda E2: E2.rd_field(me, "raw"))(E)
+    a = E.larrs(env["raw0"])[0]
+    cp, ps = zint(env["cpos"]), zint(env["pstar"])
+    # SSE: exactly ONE leading space of the value is dropped
+    env["vs"] = Sym(z3.If(cp < ps, z3.If(z3.And(cp + 1 < ps, z3.Select(a, cp + 1) == 32), cp + 2, cp + 1), ps), "int")
+
+
+def _line_parser(E):
+    """the suspended inner generator created by the prologue: parseLine(raw=self.raw, eols=(CRLF, LF, CR), ...)"""
+    me = E.frame.env["self"]
+    me = RefV(z3.IntVal(EV_IDS["self"]), "EventSource", nn=True) if not z3.is_int_value(me.t) else me
+    node = E.repo.func(F, "parseLine")
+    fv = FuncV(F, "parseLine", node)
+    c = E.reg.contracts[(F, "parseLine")][0]
+    raw = ListV(z3.IntVal(EV_IDS["raw"]), INT, kind="bytearray")
+    return B.GenV(fv, {"raw": raw, "eols": (b"\r\n", b"\n", b"\r"), "kind": "event line"}, c)
+
+
+@specfunc
+def is_line_parser(E, g, raw):
+    """g is a generator object of parseLine on the buffer `raw` with the event-stream marks"""
+    return isinstance(g, B.GenV) and g.fv.qual == "parseLine" and tuple(g.env.get("eols", ())) == (b"\r\n", b"\n", b"\r") \
+        and isinstance(g.env.get("raw"), ListV) and Sym(g.env["raw"].t == raw.t, "bool")
+
+
+def _cut_events(E):
+    """after `line = next(lineParser)`: the facts of the parseLine step contract restated on the ghost positions"""
+    env = E.frame.env
+    ln = env["line"]
+    if isinstance(ln, ListV):
+        ln.kind = "bytearray"
+    E.oblige("cut", E.spec_eval("iff(line is None, pstar == len(raw0)) and "
+                                "implies(line is not None, len(line) == pstar and is_slice(self.raw, raw0, "
+                                "pstar + eol_len_at(raw0, pstar, len(raw0), eols), len(raw0)))"),
+             "next(lineParser): line is None iff no mark; else len(line) == pstar and line + longest mark consumed")
+
+
+@specfunc
+def ev_id(E, e):
+    return E.rd_field(e, "eid")
+
+
+@specfunc
+def ev_name(E, e):
+    return E.rd_field(e, "name")
+
+
+@specfunc
+def ev_data(E, e):
+    return E.rd_field(e, "data")
+
+
+ev_id.native = lambda e: e["id"]
+ev_name.native = lambda e: e["name"]
+ev_data.native = lambda e: e["data"]
+
+CLOSED = "(self.closed is not None and self.closed)"
+LIVE = "(pstar < len(raw0) and not %s)" % CLOSED
+KEEP_ID = "L_eid == eid and self.leid == old(self.leid)"
+KEEP_NAME = "L_ename == ename"
+KEEP_PARTS = "L_parts is parts and seq_eq(parts, parts0)"
+KEEP_RETRY = "self.retry == old(self.retry)"
+KEEP_EVENTS = "len(self.events) == len(events0) and is_slice(events0, self.events, 0, len(events0))"
+KEEP_ALL = " and ".join([KEEP_ID, KEEP_NAME, KEEP_PARTS, KEEP_RETRY, KEEP_EVENTS, "L_edata == edata"])
+FIELD = "(%s and pstar > 0 and raw0[0] != 58)" % LIVE            # a field line (not empty, not a comment)
+
+
+def _fld(name):
+    return "(%s and field_is(raw0, 0, cpos, %r))" % (FIELD, name)
+
+
+OTHER = "(%s and not field_is(raw0, 0, cpos, b'data') and not field_is(raw0, 0, cpos, b'event') and " \
+        "not field_is(raw0, 0, cpos, b'id') and not field_is(raw0, 0, cpos, b'retry'))" % FIELD
+EVENTS_ENSURES = [
+    # no complete line yet: wait; nothing consumed, nothing changed
+    "implies(pstar == len(raw0), result is None and seq_eq(self.raw, raw0) and %s)" % KEEP_ALL,
+    "implies(pstar == len(raw0), step_emit and not step_exit)",
+    # a line: exactly the line and its mark are consumed
+    "implies(pstar < len(raw0), is_slice(self.raw, raw0, pstar + eol_len_at(raw0, pstar, len(raw0), eols), len(raw0)))",
+    "implies(%s, not step_emit and not step_exit)" % LIVE,
+    # comment line (starts with a colon): ignored
+    "implies(%s and pstar > 0 and raw0[0] == 58, %s)" % (LIVE, KEEP_ALL),
+    # `data`: the value (after the colon, ONE leading space dropped; empty when there is no colon) is appended
+    "implies(%s, L_parts is parts and len(parts) == len(parts0) + 1 and is_slice(parts0, parts, 0, len(parts0)) and "
+    "is_utf8(parts[len(parts) - 1], raw0, vs, pstar))" % _fld(b"data"),
+    "implies(%s, %s)" % (_fld(b"data"), " and ".join([KEEP_ID, KEEP_NAME, KEEP_RETRY, KEEP_EVENTS])),
+    # `event`: sets the event name
+    "implies(%s, is_utf8(L_ename, raw0, vs, pstar) and %s)" % (_fld(b"event"), " and ".join([KEEP_ID, KEEP_PARTS, KEEP_RETRY, KEEP_EVENTS])),
+    # `id`: sets the event id and the last event id
+    "implies(%s, is_utf8(L_eid, raw0, vs, pstar) and self.leid == L_eid and %s)"
+    % (_fld(b"id"), " and ".join([KEEP_NAME, KEEP_PARTS, KEEP_RETRY, KEEP_EVENTS])),
+    # `retry`: sets the reconnection time only when the value is an integer literal (SSE: ASCII digits only)
+    "implies(%s and all_digits(raw0, vs, pstar), self.retry is not None and retry_is(self.retry, raw0, vs, pstar))" % _fld(b"retry"),
+    "implies(not all_digits(raw0, vs, pstar) and %s, %s)" % (_fld(b"retry"), KEEP_RETRY),
+    "implies(%s, %s)" % (_fld(b"retry"), " and ".join([KEEP_ID, KEEP_NAME, KEEP_PARTS, KEEP_EVENTS])),
+    # any other field name: ignored
+    "implies(%s, %s)" % (OTHER, KEEP_ALL),
+    # empty line: dispatch.  With data lines: exactly ONE event (id, name, data lines joined by newlines) is appended
+    "implies(%s and pstar == 0 and len(parts0) > 0, len(self.events) == len(events0) + 1 and "
+    "is_slice(events0, self.events, 0, len(events0)) and ev_id(self.events[len(events0)]) == eid and "
+    "ev_name(self.events[len(events0)]) == ename and ev_data(self.events[len(events0)]) == join_nl(parts0))" % LIVE,
+    # without data lines: nothing is appended
+    "implies(%s and pstar == 0 and len(parts0) == 0 and len(edata) == 0, %s)" % (LIVE, KEEP_EVENTS),
+    # after a dispatch the name and data buffers are reset, the id persists
+    "implies(%s and pstar == 0, len(L_ename) == 0 and len(L_edata) == 0 and len(L_parts) == 0 and "
+    "seq_eq(parts, parts0) and %s and %s)" % (LIVE, KEEP_ID, KEEP_RETRY),
+]
+
+contract(F, "EventSource.parseEvents", "C33", tags=("step2", "logic=AUFLIA"),
+         params=dict(self=Ref("EventSource"), eid=Opt(STR), ename=STR, edata=STR, parts=List(STR), ejson=NONE,
+                     lineParser=_line_parser),
+         setup=_ev_setup, requires=["not self.dictable"],
+         ghost={"after": {"line = next(lineParser)": _cut_events}},
+         modifies=["self.raw[*]", "self.events[*]", "self.leid", "self.retry", "parts[*]"],
+         ensures=EVENTS_ENSURES, raises={"UnicodeDecodeError": ["pstar < len(raw0)"], "LineTooLong": ["True"]},
+         findings={"retry-python-int": "%s and not all_digits(raw0, vs, pstar)" % _fld(b"retry"),
+                   "empty-data-not-dispatched": "pstar == 0 and len(parts0) > 0 and len(join_nl(parts0)) == 0"},
+         note="one pass of EventSource.parseEvents (dictable False); step state: eid, ename, edata, parts and the "
+              "suspended lineParser; the inner next(lineParser) is the parseLine step contract (modular)")
+
+
+contract(F, "EventSource.parseEvents", "C33", tags=("step2-init",), params=dict(self=Ref("EventSource")),
+         setup=_ev_setup, modifies=[],
+         ensures=["L_eid == self.leid", "len(L_ename) == 0 and len(L_edata) == 0", "len(L_parts) == 0 and fresh(L_parts)",
+                  "L_ejson is None", "is_line_parser(L_lineParser, self.raw)"],
+         note="prologue of parseEvents: the initial step state")
+
+
+# ------------------------------------------------------------------------------------------ native harness
+EVENT_LINES = [b"data: x", b"data:x", b"data:  y", b"data", b"data:", b"event: e", b"event:e", b"id: 7", b"id", b"id:",
+               b": comment", b":", b"retry: 10", b"retry:10", b"retry: +5", b"retry: x", b"retry: 1 ", b"retry:",
+               b"foo: bar", b"foo", b"da: x", b"data : x", b"a:b:c", b" data: x", b"data: a:b"]
+
+
+def _drive(gen, es, chunk):
+    """feed one chunk to a suspended parseEvents generator, one OnePass step per line"""
+    es.raw.extend(chunk)
+    for _ in range(64):
+        es.raw.consumed = False
+        before = len(es.raw)
+        r = next(gen)
+        if len(es.raw) == before:
+            return r
+    raise RuntimeError("prefix not consumed")
+
+
+def _mk_events(rng, i, cex, nr):
+    cls = nr.mod.EventSource
+    es = object.__new__(cls)
+    es.raw = OnePass()
+    es.events = nr.mod.deque()
+    es.dictable = False
+    es.leid = rng.choice([None, u"L"])
+    es.retry = rng.choice([None, 3])
+    es.closed = None
+    es.parser = None
+    gen = cls.parseEvents(es)
+    # bring the generator into some reachable state: a few complete lines first
+    eol = lambda: rng.choice([b"\n", b"\r\n", b"\r"])
+    pre = b""
+    for _ in range(rng.randint(0, 3)):
+        pre += rng.choice(EVENT_LINES[:12] + [b""]) + b"\n"
+    _drive(gen, es, pre)
+    assert len(es.raw) == 0
+    buf = _cex_list(cex, "raw") if cex else None
+    if buf is None:
+        r = rng.random()
+        if r < 0.55:
+            buf = rng.choice(EVENT_LINES) + rng.choice([eol(), eol(), b""]) + rand_bytes(rng, 0, 5)
+        elif r < 0.7:
+            buf = eol() + rand_bytes(rng, 0, 5)
+        else:
+            buf = rand_bytes(rng)
+    if rng.random() < 0.05:
+        es.closed = True
+    es.raw.consumed = False
+    es.raw.extend(buf)
+    loc = gen.gi_frame.f_locals
+    eols = (b"\r\n", b"\n", b"\r")
+    env = {"self": es, "raw0": bytes(buf), "eols": eols, "_gen": gen, "eid": loc["eid"], "ename": loc["ename"],
+           "edata": loc["edata"], "parts": loc["parts"], "parts0": list(loc["parts"]), "events0": list(es.events)}
+    pos = n_positions(buf, eols)
+    ps, cp = pos["pstar"], pos["cpos"]
+    pos["vs"] = (cp + 2 if (cp + 1 < ps and buf[cp + 1] == 32) else cp + 1) if cp < ps else ps
+    env.update(pos)
+    return env
+
+
+def _call_events(env, nr):
+    return next(env["_gen"])
+
+
+class _Ev(object):
+    def __init__(self, d):
+        self.eid, self.name, self.data = d["id"], d["name"], d["data"]
+
+    def __eq__(self, o):
+        return isinstance(o, _Ev) and (self.eid, self.name, self.data) == (o.eid, o.name, o.data)
+
+
+class _Events(list):
+    pass
+
+
+def _view_events(env, nr):
+    d = _view(env, nr)
+    fr = env["_gen"].gi_frame
+    if fr is not None:
+        for k, v in fr.f_locals.items():
+            d["L_" + k] = v
+    return d
+
+
+def _ev_native_ns():
+    # events are odicts natively: expose .eid / .name / .data on them for the clauses
+    pass
+
+
+for _c in REG.contracts[(F, "EventSource.parseEvents")]:
+    if "step2" in _c.tags:
+        _c.replay = dict(make=_mk_events, call=_call_events, view=_view_events, count=600)
+
+
+# ========================================================================================== packChunk (C29)
+_HEXD = z3.Function("hexdigits", z3.IntSort(), SeqInt)
+
+
+class HexFmt(Opaque_):
+    """the text "{0:x}\\r\\n".format(n): carried until it is encoded"""
+    __slots__ = ("n",)
+
+    def __init__(self, n):
+        Opaque_.__init__(self, "hexfmt")
+        self.n = n
+
+
+@external("literal.format")
+def _lit_format(E, args, kw):
+    if args[0] == u"{0:x}\r\n" and len(args) == 2 and kind_of(args[1]) == "int":
+        return HexFmt(args[1])
+    return None                 # any other literal: not modelled (message text)
+
+
+@external("str.encode")
+def _str_encode(E, args, kw):
+    if isinstance(args[0], HexFmt) and len(args) == 2 and args[1] == "ascii":
+        return Sym(z3.Concat(_HEXD(zint(args[0].n)), zbytes(b"\r\n")), "bytes")
+    if isinstance(args[0], Opaque_):
+        return Opaque_("str.encode")
+    raise Unsupported("encode of %r" % (args[0],))
+
+
+@specfunc
+def hexdigits(E, n):
+    return Sym(_HEXD(zint(n)), "bytes")
+
+
+hexdigits.native = lambda n: format(n, "x").encode("ascii")
+REG.assume_note('"{0:x}\\r\\n".format(n).encode("ascii") == hexdigits(n) + b"\\r\\n" where hexdigits(n) is the lower-case '
+                "hexadecimal numeral of n (uninterpreted in the proof, format(n, 'x') natively)")
+
+contract(F, "packChunk", "C29", params=dict(msg=BYTES), modifies=[], returns=BYTES,
+         ensures=["result == hexdigits(len(msg)) + CRLF + msg + CRLF"],
+         replay=dict(make=lambda rng, i, cex, nr: {"msg": bytes(rng.randrange(256) for _ in range(rng.choice([0, 1, 5, 17, 300])))},
+                     view=_view, count=60),
+         note="chunk = size in hex, CRLF, the data verbatim, CRLF (no chunk extensions are produced)")
